@@ -136,6 +136,112 @@ def c14_footprint(which: int, boost: int, nfiles: int) -> bool:
     return ok
 
 
+class MemFS:
+    """in-memory file system that persists across runs inside one harness execution (a "build directory")"""
+
+    def __init__(self):
+        self.files, self.dirs = {}, set()
+        fs = self
+
+        class P:
+            join = staticmethod(os.path.join)
+            dirname = staticmethod(os.path.dirname)
+            basename = staticmethod(os.path.basename)
+            realpath = staticmethod(os.path.realpath)
+            abspath = staticmethod(os.path.abspath)
+            normpath = staticmethod(os.path.normpath)
+            splitext = staticmethod(os.path.splitext)
+
+            @staticmethod
+            def isdir(p):
+                return p in fs.dirs or any(f.startswith(p.rstrip("/") + "/") for f in fs.files) or (not p.startswith("tb") and os.path.isdir(p))
+
+            @staticmethod
+            def exists(p):
+                return p in fs.files or P.isdir(p) or (not p.startswith("tb") and os.path.exists(p))
+
+            @staticmethod
+            def isfile(p):
+                return p in fs.files or (not p.startswith("tb") and os.path.isfile(p))
+
+            @staticmethod
+            def getsize(p):
+                return len(fs.files[p]) if p in fs.files else os.path.getsize(p)
+        self.path = P
+
+    def makedirs(self, p, exist_ok=False):
+        self.dirs.add(p)
+
+    def mkdir(self, p):
+        self.dirs.add(p)
+
+    def open(self, name, mode="r", *a, **k):
+        import io
+        name = str(name)
+        fs = self
+        if "w" in mode:
+            class W(io.StringIO):
+                def __exit__(s2, *aa):
+                    fs.files[name] = s2.getvalue()
+                    return False
+            return W()
+        if name in self.files:
+            return io.StringIO(self.files[name])
+        if name.endswith("matlab_wrapper.tpl") and not os.path.exists(name):
+            return io.StringIO(pipe.MATLAB_TPL_TEXT)
+        return open(name, mode, *a, **k)
+
+
+REVISIONS = [
+    ("namespace robot { class Arm { Arm(); double value(int a) const; int reach; }; enum Paint { Red, Blu }; double grip(double f); }",
+     "namespace robot { class Arm { Arm(); double scale(int a) const; int range; }; enum Paint { Tan, Sky }; double grab(double f); }"),
+    ("class Solo { Solo(size_t n); void run() const; };", "class Solo { Solo(double n); void jog() const; };"),
+    ("namespace a { class K { K(); }; } namespace b { class K { K(); void extra() const; }; }", "namespace a { class K { K(); void added() const; }; } namespace b { class K { K(); }; }"),
+]
+
+
+def run_matlab_into(fs, text):
+    import gtwrap.matlab_wrapper.wrapper as _mw
+    saved = (_mw.__dict__.get("open"), _mw.os, _mw.osp)
+    _mw.open, _mw.os, _mw.osp = fs.open, fs, fs.path
+    try:
+        w = MatlabWrapper(module_name="mod", top_module_namespace=[''], ignore_classes=[''])
+        w.wrap_namespace
+        import gtwrap.interface_parser as parser
+        import gtwrap.template_instantiator as instantiator
+        module = instantiator.instantiate_namespace(parser.Module.parseString(text))
+        w.wrap_namespace(module)
+        w.generate_wrapper(module)
+        w.generate_content(w.content, "tb")
+    finally:
+        if saved[0] is None:
+            _mw.__dict__.pop("open", None)
+        else:
+            _mw.open = saved[0]
+        _mw.os, _mw.osp = saved[1], saved[2]
+
+
+def c14_previous_run(r: int, swap: int) -> bool:
+    """
+    Generating revision 2 into a directory that still holds the output of revision 1 (same-length edits included)
+    leaves exactly what generating revision 2 into an empty directory leaves, for every file revision 2 produces.
+    pre: 0 <= r < len(REVISIONS) and 0 <= swap <= 1
+    post: _
+    """
+    r, swap = pick(r, 0, len(REVISIONS)), pick(swap, 0, 2)
+    with concrete():
+        first, second = REVISIONS[r] if not swap else REVISIONS[r][::-1]
+        used = MemFS()
+        run_matlab_into(used, first)
+        run_matlab_into(used, second)
+        fresh = MemFS()
+        run_matlab_into(fresh, second)
+        stale = [k for k in fresh.files if used.files.get(k) != fresh.files[k]]
+        ok = not stale or _fail(first=first, second=second, stale_files=stale)
+    reached({"revisions": r, "swap": swap})
+    return ok
+
+
 def c14_repeat_fresh(t: int, boost: int) -> bool:
     """
     Two fresh wrappers of each kind on the same text give identical results (no module-level state).
@@ -163,5 +269,6 @@ def conds(tier):
                 bounds="%d-text pool, 0-2 earlier wrap_file calls, both serialization settings" % NT),
         xh.Cond(M, "c14_xml_memory", t(120, 600), kind=sb, examples=["times=2, nover=1", "times=2, nover=2"], bounds="1-3 repeated runs x 1-3 indistinguishable overloads"),
         xh.Cond(M, "c14_footprint", t(200, 900), kind=sb, examples=["which=0, boost=1, nfiles=3", "which=2, boost=0, nfiles=2"], bounds="3 entry points x serialization x 1-3 source files"),
+        xh.Cond(M, "c14_previous_run", t(120, 600), kind=sb, examples=["r=0, swap=0", "r=2, swap=1"], bounds="%d revision pairs (same-length edits) x both orders, MATLAB output directory kept between the two runs" % len(REVISIONS)),
         xh.Cond(M, "c14_repeat_fresh", t(120, 600), kind=sb, examples=["t=2, boost=1"], bounds="%d texts x serialization" % NT),
     ]
